@@ -38,7 +38,7 @@ ASSUMPTIONS = [
 ]
 RULE = ("random scripted model classes (constructor / step bodies of DataCollector ops with int positions fed from kwargs; collect at construction "
         "and/or inside step, before or after the mutations; early stop via a stop step; 0-3 agents created per run, agents created / removed while "
-        "stepping; with and without agent reporters) x random parameter dicts (0-3 parameters: scalars incl. None and floats, strings, lists / tuples "
+        "stepping, model.agents reordered in place inside step in 12% of the classes; with and without agent reporters) x random parameter dicts (0-3 parameters: scalars incl. None and floats, strings, lists / tuples "
         "incl. empty and with unhashable / tuple / empty-string values, ranges incl. empty, dicts, one-shot iterators / generators in 6% of the parameters) "
         "x iterations 1-3 x max_steps 0-6 x period {-1, 1, 2, 3, 0, 7, 9, 50}; display_progress on in 15% of the runs; 5% of the model classes have reporters "
         "that raise while an attribute is missing; number_processes 1 in the generated stream, 2 and 3 (spawn) in the built-in stream; non-trivial = some batch_run returned "
